@@ -252,7 +252,12 @@ class netcdf_indexer:
 
         dtype_unsigned_int = None
         if unpack:
-            is_unsigned_int = attributes.get("_Unsigned") in ("true", "True")
+            # Only signed integer data can be reinterpreted as
+            # unsigned integers (as in netCDF4-python)
+            is_unsigned_int = (
+                attributes.get("_Unsigned") in ("true", "True")
+                and data.dtype.kind == "i"
+            )
             if is_unsigned_int:
                 data_dtype = data.dtype
                 dtype_unsigned_int = (
